@@ -19,7 +19,7 @@ PY = "/venv/bin/python"
 
 
 def scratch(name, patch=None):
-    root = "/tmp/sx/mut/%s" % name
+    root = "/tmp/sx/mut/%s-%d" % (name, os.getpid())
     shutil.rmtree(root, ignore_errors=True)
     os.makedirs(root)
     for item in ("src", "tests", "pytest.ini"):
